@@ -15,7 +15,8 @@ from egverif.props import c01
 
 RULE = (
     "cases = histories of assignments to Universe.laws and UniverseLaws.applies_to (to another object or None, from "
-    "either side), Universe(laws=fresh|already bound|None) and UniverseLaws() over 1-3 universes and 1-4 law sets.  "
+    "either side), Universe(laws=fresh|already bound|None) and UniverseLaws() over 1-3 universes (with members, other universes and themselves "
+    "among them) and 1-4 law sets.  "
     "Part 1: from 2 base states every op with every argument to depth 3 (4 in thorough); part 2: random histories of "
     "40-120 ops.  After every op: model-free bijection u.laws is L <=> L.applies_to is u over everything reachable, "
     "the assignment must not raise and must take effect, and only the two previous partners may be detached "
